@@ -314,6 +314,35 @@ func Audit(c *vh.Case, t *chainx.Tree, nd *chainx.Node, res string, before strin
 			c.Oracle("tip-state-changed-without-tip-change", "TipState changed while the tip stayed at %d", tid)
 		}
 	}
+	auditFailed(c, t, nd, res, before)
+}
+
+// AuditAdopted: a batch that was accepted (nil error) and whose last block heads a fully valid
+// chain sufficiently heavier than the tip the manager had must have become the tip — whether its
+// blocks were new or already stored (e.g. offered again after an earlier attempt failed).
+func AuditAdopted(c *vh.Case, t *chainx.Tree, nd *chainx.Node, res string, batch []int, beforeTip int) {
+	if res != "ok" || len(batch) == 0 {
+		return
+	}
+	last := batch[len(batch)-1]
+	lb := t.Blocks[last]
+	if lb.Parent == chainx.OrphanParent || lb.Work == nil || !t.AllValid(last) || lb.Future {
+		return
+	}
+	// the batch must be one parent-linked run ending in last (then the loop's state is last's)
+	for k := 1; k < len(batch); k++ {
+		if t.Blocks[batch[k]].Parent != batch[k-1] {
+			return
+		}
+	}
+	if heavier(lb, t.Blocks[beforeTip]) {
+		if tid, _ := t.Lookup(nd.CM.Tip().ID); tid != last {
+			c.Oracle("valid-heavier-chain-not-adopted", "AddBlocks(%v) returned nil; block %d heads a fully valid chain (work %v) sufficiently heavier than the tip %d (work %v, difficulty %v), but the tip is %d", batch, last, lb.Work, beforeTip, t.Blocks[beforeTip].Work, t.Blocks[beforeTip].Diff, tid)
+		}
+	}
+}
+
+func auditFailed(c *vh.Case, t *chainx.Tree, nd *chainx.Node, res string, before string) {
 	if res != "ok" {
 		after := Observe(t, nd, "x")
 		if strings.TrimPrefix(after, "x") != strings.TrimPrefix(before, strings.Fields(before)[0]) {
@@ -443,6 +472,9 @@ func RunTreeModes(r *vh.Run, name string, t *chainx.Tree, sched [][]int, modes [
 		}
 		Audit(c, t, nd, res, before, beforeState, beforeTip, beforeN, tainted)
 		AuditStoredStates(c, t, nd, tainted)
+		if mode != "addv2" && !(mode == "" && strings.HasPrefix(sb.String(), "addv2")) {
+			AuditAdopted(c, t, nd, res, batch, beforeTip)
+		}
 		if len(t.Blocks) <= 300 {
 			c.Op(FullOp(t, nd))
 		} else if t.Net.N.HardforkOak.Height > 2000 {
